@@ -502,7 +502,10 @@ func (p *Path) parseJSON(s StrV, site ssa.Instruction) (jv *JV, why string) {
 var rfc3339NanoID = layoutID("2006-01-02T15:04:05.999999999Z07:00")
 
 func typeFullName(t types.Type) string {
-	if n, ok := t.(*types.Named); ok && n.Obj().Pkg() != nil {
+	if t == nil {
+		return ""
+	}
+	if n, ok := types.Unalias(t).(*types.Named); ok && n.Obj().Pkg() != nil {
 		return n.Obj().Pkg().Path() + "." + n.Obj().Name()
 	}
 	return ""
